@@ -20,6 +20,7 @@ from ast import literal_eval
 from multiprocessing import Lock
 from multiprocessing import Value
 from pathlib import Path
+from typing import ClassVar
 from uuid import uuid4
 
 from strenum import StrEnum
@@ -44,6 +45,8 @@ class DirectoryNamingMethod(StrEnum):
 
 class DirectoryCreator(Serializable):
     """A class to create directories."""
+
+    _ATTR_NOT_TO_SERIALIZE: ClassVar[set[str]] = {"_DirectoryCreator__lock"}
 
     __counter: Value
     """The number of created directories."""
